@@ -1266,7 +1266,7 @@ def write_jsonld_compact(quads, style, ext_base=None):
             second["@language"] = dlang
     else:
         ctxv = ctx
-    if len(top) == 1 and A("@graph") not in top[0] and st.random() < 0.5:
+    if len(top) == 1 and A("@graph") not in top[0] and "@context" not in top[0] and st.random() < 0.5:
         doc = dict({"@context": ctxv}, **top[0])
     else:
         doc = {"@context": ctxv, A("@graph"): top}
